@@ -1,0 +1,59 @@
+//go:build verif
+
+// Contracts for package rescache, read by /verif/govc. Comment lines starting with
+// "//@" are specifications; the Go functions below are executable forms of the
+// specification predicates, used as runtime oracles by replays.
+package rescache
+
+import (
+	"github.com/resgateio/resgate/server/codec"
+	"github.com/resgateio/resgate/server/reserr"
+)
+
+var _ = codec.IsValidRID
+var _ = reserr.ErrAccessDenied
+
+//@ define predEntry(s string, lo int, hi int) bool = 0 <= lo && lo <= hi && hi <= len(s) &&
+//@     (lo == 0 || s[lo-1] == ',') && (hi == len(s) || s[hi] == ',') &&
+//@     (forall k int :: lo <= k && k < hi ==> s[k] != ',')
+
+//@ define predListHas(s string, a string) bool = s != "" && (exists lo, hi int :: predEntry(s, lo, hi) && s[lo:hi] == a)
+
+//@ func (*Access).CanGet
+//@   requires a != nil && (a.Error != nil || a.AccessResult != nil)
+//@   ensures[C04] (result == nil) == (a.Error == nil && a.Get)
+//@   ensures[C04] a.Error != nil ==> result == a.Error
+//@   ensures[C04] a.Error == nil && !a.Get ==> result == reserr.ErrAccessDenied
+//@   assigns nothing
+//@   safety[C15]
+
+//@ func (*Access).CanCall
+//@   requires a != nil && (a.Error != nil || a.AccessResult != nil)
+//@   ensures[C05] (result == nil) == (a.Error == nil && (a.Call == "*" || predListHas(a.Call, action)))
+//@   ensures[C05] a.Error != nil ==> result == a.Error
+//@   ensures[C05] a.Error == nil && result != nil ==> result == reserr.ErrAccessDenied
+//@   assigns nothing
+//@   safety[C15]
+//@   loop 1 invariant 0 <= i && i <= e && e <= len(s) && s == a.Call && s != ""
+//@   loop 1 invariant e == len(s) || s[e] == ','
+//@   loop 1 invariant forall k int :: i <= k && k < e ==> s[k] != ','
+//@   loop 1 invariant forall lo, hi int :: e < lo && predEntry(s, lo, hi) ==> s[lo:hi] != action
+//@   loop 1 decreases i
+
+// SpecListHas is the executable form of predListHas: a is exactly one of the
+// comma-separated entries of s; the empty list has no entries.
+func SpecListHas(s, a string) bool {
+	if s == "" {
+		return false
+	}
+	lo := 0
+	for i := 0; i <= len(s); i++ {
+		if i == len(s) || s[i] == ',' {
+			if s[lo:i] == a {
+				return true
+			}
+			lo = i + 1
+		}
+	}
+	return false
+}
